@@ -51,7 +51,21 @@ def tag(e):
                   "error": "E_STRUCT"}.get(n, "E_OTHER:" + n)
 
 
+def present(data, kind):
+    """the same byte string as another buffer type"""
+    if kind == "bytearray":
+        return bytearray(data)
+    if kind == "memoryview":
+        return memoryview(data)
+    if kind == "bytes_subclass":
+        return type("B", (bytes,), {})(data)
+    return data
+
+
 def answer(fn, data):
+    if "@" in fn:
+        fn, _, kind = fn.partition("@")
+        data = present(data, kind)
     if fn == "ripemd160":
         return "x" + H.ripemd160(data).digest().hex()
     if fn == "hash160":
